@@ -35,6 +35,7 @@ func init() {
 	c16Path = eng.NewKind(c, "path", judgePath)
 	c16Soak = eng.NewKind(c, "soak", judgeSoakPath)
 	c16Once = eng.NewKind(c, "receiver-once", judgeOnceRecv)
+	c16Caller = eng.NewKind(c, "caller-updates", judgeCaller)
 }
 
 type c16S struct {
@@ -48,6 +49,19 @@ type c16S struct {
 	T   time.Time
 	Sl  []interface{}
 	b   int
+}
+
+// C16Audit is embedded in c16Outer: its exported fields are fields of the outer struct as well
+type C16Audit struct {
+	Version int
+	Owner   string
+	Np      *c16S
+}
+
+type c16Outer struct {
+	ID int
+	C16Audit
+	Total float64
 }
 
 var c16Time = time.Date(2021, 3, 4, 5, 6, 7, 0, time.UTC)
@@ -86,10 +100,11 @@ func c16Universe(depth int) map[string]interface{} {
 		m["s"] = c16S{A: 7, I64: 1 << 60, F: 0.1, Str: "fs", M: c16Universe(depth - 1), T: c16Time, Sl: c16Slice, b: 3}
 		m["M"] = map[string]interface{}{"x": 1.0}
 	}
+	m["em"] = c16Outer{ID: 5, C16Audit: C16Audit{Version: 3, Owner: "ann"}, Total: 9.5}
 	return m
 }
 
-var c16Keys = []string{"k", "s", "A", "b", "z", "q", "n", "np", "len", "now", "i", "i32", "i64", "f64", "str", "e", "bl", "t", "tm", "sl", "f", "mi", "ms", "mb", "M", "o", "a", "I64", "F", "Str", "Z", "Np", "T", "Sl", "x", "Missing", "sa", "sb", "sc", "Name", "Age", "ID", "zt", "nsl", "nany", "esl", "$loc", "npd", "npt", "nps", "npi"}
+var c16Keys = []string{"k", "s", "A", "b", "z", "q", "n", "np", "len", "now", "i", "i32", "i64", "f64", "str", "e", "bl", "t", "tm", "sl", "f", "mi", "ms", "mb", "M", "o", "a", "I64", "F", "Str", "Z", "Np", "T", "Sl", "x", "Missing", "sa", "sb", "sc", "Name", "Age", "ID", "zt", "nsl", "nany", "esl", "$loc", "npd", "npt", "nps", "npi", "em", "Version", "Owner", "C16Audit", "Total"}
 
 // c16MemberOnly: keys used after a dot only (as a bare name a reserved word is not a name)
 var c16MemberOnly = []string{"null", "this", "true", "false", "ctx", "typeof"}
@@ -440,6 +455,60 @@ func judgeSoakPath(c SoakPathCase) *eng.Fail {
 	return nil
 }
 
+// CallerCase: the caller changes ITS data map between two evaluations on one runner; names and
+// this.k denote the entries of that map as it is now.
+type CallerCase struct {
+	Pre    string `json:"pre"`
+	Change string `json:"change"`
+}
+
+var c16Caller *eng.Kind[CallerCase]
+
+func judgeCaller(c CallerCase) *eng.Fail {
+	m := map[string]interface{}{"price": 2.0, "qty": 3.0, "item": map[string]interface{}{"sku": "a"}, "label": "old"}
+	r := formula.NewRunner()
+	r.SetThis(m)
+	if c.Pre != "" {
+		if o, err := evalOn(r, c.Pre); err != nil || o.panicked || o.err != nil {
+			return eng.F("C16/eval", "%s: %v %v %s", c.Pre, err, o.err, o.panicMsg)
+		}
+	}
+	switch c.Change {
+	case "update":
+		m["price"] = 5.0
+	case "add":
+		m["extra"] = "new"
+	case "delete":
+		delete(m, "item")
+	case "replace-inner":
+		m["item"] = map[string]interface{}{"sku": "b"}
+	case "all":
+		m["price"], m["extra"], m["label"] = 7.0, 1.0, nil
+		delete(m, "item")
+	}
+	probe := "[price, this.price, extra, this.extra, item.sku, this.item.sku, label, this.label, price * qty, $total, this]"
+	got, err := evalOn(r, probe)
+	fresh := formula.NewRunner()
+	fresh.SetThis(m)
+	want, err2 := evalOn(fresh, probe)
+	if err != nil || err2 != nil || got.panicked || want.panicked {
+		return eng.F("C16/eval", "%s: %v %v %s %s", probe, err, err2, got.panicMsg, want.panicMsg)
+	}
+	if (got.err == nil) != (want.err == nil) || canonImpl(got.val) != canonImpl(want.val) {
+		return eng.F("C16/stale-data", "SetThis(m); %q; the caller then changes m (%s); on the same runner %s = %s %v, but the entries of m are %s %v", c.Pre, c.Change, probe, canonImpl(got.val), got.err, canonImpl(want.val), want.err)
+	}
+	outcome("caller " + c.Change)
+	return nil
+}
+
+func evalOn(r *formula.Runner, src string) (evalOut, error) {
+	p, err := cachedParse(src)
+	if err != nil {
+		return evalOut{}, err
+	}
+	return safeResolve(r, bg, p.Expression), nil
+}
+
 // OnceRecvCase: a receiver with a side effect (a recording host function) under . and !.
 type OnceRecvCase struct {
 	Src   string `json:"src"`
@@ -482,6 +551,19 @@ func runC16(w *eng.W) {
 		}
 	}
 	if w.Take() {
+		for _, pre := range []string{"", "price", "$total = price * qty, $total", "$a = 1, $b = item, $c = this, [$a, $b.sku]", "[price, extra, item.sku, this.label]", "$total = 1, $total = $total + 1"} {
+			for _, ch := range []string{"none", "update", "add", "delete", "replace-inner", "all"} {
+				w.State(1)
+				w.Trans(2)
+				w.Trace(1)
+				w.Note("leg:caller-updates", 1)
+				c := CallerCase{Pre: pre, Change: ch}
+				w.Sample("caller-updates", c)
+				c16Caller.Do(w, c)
+			}
+		}
+	}
+	if w.Take() {
 		chain := "missing!.a1"
 		for i := 2; i <= 120; i++ {
 			chain += ".a" + strconv.Itoa(i)
@@ -510,7 +592,7 @@ func runC16(w *eng.W) {
 		segs = append(segs, "."+k, "!."+k)
 	}
 	var deepSegs []string
-	for _, k := range []string{"k", "s", "M", "q", "n", "np", "z", "i64", "mi", "A", "b", "Missing", "str", "sa", "sb", "Name", "zt", "nsl", "npd", "npi", "null", "typeof", "this", "__u", "sTr2", "str2"} {
+	for _, k := range []string{"k", "s", "M", "q", "n", "np", "z", "i64", "mi", "A", "b", "Missing", "str", "sa", "sb", "Name", "zt", "nsl", "npd", "npi", "null", "typeof", "this", "__u", "sTr2", "str2", "em", "Version", "C16Audit", "Np"} {
 		deepSegs = append(deepSegs, "."+k, "!."+k)
 	}
 	for _, cfg := range []string{"full", "nulls", "empty", "none"} {
